@@ -37,7 +37,7 @@ func (vc *VC) inPkg(f *ssa.Function) bool {
 }
 
 func isSpecHelper(name string) bool {
-	return name == "__forall" || name == "__exists" || name == "__old" || name == "__trigger" || name == "__has" || name == "__get" || name == "__same" || name == "__fresh" || name == "__disjoint"
+	return name == "__forall" || name == "__exists" || name == "__old" || name == "__trigger" || name == "__has" || name == "__get" || name == "__same" || name == "__fresh" || name == "__disjoint" || name == "__samearray" || name == "__unchanged"
 }
 
 func (vc *VC) isSpecDecl(name string) *SpecDecl {
@@ -195,6 +195,64 @@ func (fr *Frame) staticCall(t *ssa.Call, callee *ssa.Function, bindings []Val) {
 			// two slices whose backing arrays are different allocations (or one of them is nil)
 			a, b := args[0].T, args[1].T
 			fr.vals[t] = Val{T: Term{fmt.Sprintf("(or (= (alloc %[1]s) 0) (= (alloc %[2]s) 0) (not (= (alloc %[1]s) (alloc %[2]s))))", sptr(a).S, sptr(b).S), SBool}}
+			return
+		case name == "__unchanged":
+			// every modelled heap equals the entry heap (used as "!found ==> __unchanged()" in loops
+			// whose callbacks havoc everything)
+			if fr.st.epoch == 0 {
+				var eqs []Term
+				for _, h := range sortedKeys(boolKeysT(fr.st.heaps)) {
+					cur, pre := fr.st.heaps[h], vc.preHeap(h, 0)
+					if cur.S != pre.S {
+						eqs = append(eqs, eq(cur, pre))
+					}
+				}
+				fr.vals[t] = Val{T: and(eqs...)}
+				return
+			}
+			if us := vc.epochEq[fr.st.epoch]; len(us) > 0 {
+				// later in the same epoch (e.g. at the back edge of the loop whose head made the
+				// assumption): unchanged iff one of the registered conditions holds and what was
+				// written since equals the entry heap again
+				var ors []Term
+				for _, x := range us {
+					ors = append(ors, Term{x, SBool})
+				}
+				conj := []Term{or(ors...)}
+				for _, h := range sortedKeys(boolKeysT(fr.st.heaps)) {
+					cur := fr.st.heaps[h]
+					if cur.S != vc.preHeap(h, fr.st.epoch).S {
+						conj = append(conj, eq(cur, vc.preHeap(h, 0)))
+					}
+				}
+				fr.vals[t] = Val{T: and(conj...)}
+				return
+			}
+			u := vc.freshConst("unchanged", SBool)
+			if vc.epochEq == nil {
+				vc.epochEq = map[int][]string{}
+			}
+			vc.epochEq[fr.st.epoch] = append(vc.epochEq[fr.st.epoch], u.S)
+			suffix := fmt.Sprintf("!e%d", fr.st.epoch)
+			for _, d := range sortedKeys(strKeys(vc.declared)) {
+				if strings.HasSuffix(d, suffix) {
+					base := strings.TrimSuffix(d, suffix)
+					if _, isHeap := vc.heapSort[base]; isHeap {
+						vc.asserts = append(vc.asserts, fmt.Sprintf("(=> %s (= %s %s))", u.S, d, vc.preHeap(base, 0).S))
+					}
+				}
+			}
+			// heaps already modified in this epoch cannot be claimed unchanged
+			if len(fr.st.heaps) > 0 {
+				fr.vals[t] = Val{T: tFalse}
+				return
+			}
+			fr.vals[t] = Val{T: u}
+			return
+		case name == "__samearray":
+			// two slices backed by the same allocation
+			a, b := args[0].T, args[1].T
+			fr.vals[t] = Val{T: Term{fmt.Sprintf("(= (alloc %s) (alloc %s))", sptr(a).S, sptr(b).S), SBool}}
 			return
 		case name == "__same":
 			fr.vals[t] = Val{T: eq(args[0].T, args[1].T)}
@@ -1788,4 +1846,20 @@ func (fr *Frame) captureMod(t *ssa.Call) {
 	}
 	*vc.modCapture = append(*vc.modCapture, mc)
 	fr.vals[t] = Val{T: Term{"nilslice", SSlice}}
+}
+
+func boolKeysT(m map[string]Term) map[string]bool {
+	out := map[string]bool{}
+	for k := range m {
+		out[k] = true
+	}
+	return out
+}
+
+func strKeys(m map[string]string) map[string]bool {
+	out := map[string]bool{}
+	for k := range m {
+		out[k] = true
+	}
+	return out
 }
